@@ -173,6 +173,8 @@ func c13Matchers() []mspec {
 		{K: "and", Sub: []mspec{pv1e, ha}},
 		{K: "or", Sub: []mspec{hv1, ha}}, // a rejecting first member must leave nothing behind for the second
 		{K: "or", Sub: []mspec{hv1, pv1e}},
+		// members writing the SAME parameter name: a rejected inner And must give the outer value back
+		{K: "and", Sub: []mspec{{K: "hv", Args: []string{"v", "", "1"}}, {K: "or", Sub: []mspec{{K: "and", Sub: []mspec{pv1, ha}}, hb}}}},
 	}
 }
 
@@ -201,6 +203,8 @@ func (it c13Item) opStrings(ms []mspec) []string {
 			s = append(s, "Group.Remove("+o.Name+")")
 		case "dup":
 			s = append(s, "Group.New("+o.Name+") again (duplicate name)")
+		case "dupadd":
+			s = append(s, "Group.Add(Hosts(never.example), the router "+o.Name+" itself) again (duplicate name)")
 		}
 	}
 	return s
@@ -261,6 +265,21 @@ func c13Job(raw json.RawMessage) (any, error) {
 			for _, r := range model {
 				if r.name == o.Name {
 					r.live = false
+				}
+			}
+		case "dupadd":
+			// the router object that is already registered, offered again with another matcher
+			var old *Router
+			for _, r := range g.Routers() {
+				if r.Name() == o.Name {
+					old = r
+				}
+			}
+			if old != nil {
+				_, bad := Guard(func() { g.Add(mux.NewHosts(false, "never.example"), old) })
+				out.Evals++
+				if !bad {
+					rep("C13.unique-names", "duplicate-name-accepted", "Group.Add("+o.Name+") again", "returned normally", "panic: the name is taken")
 				}
 			}
 		case "dup":
@@ -465,6 +484,7 @@ func init() {
 						items = append(items, c13Item{Ops: rm})
 					}
 					items = append(items, c13Item{Ops: append(append([]gOp{}, ops...), gOp{K: "dup", Name: names[0]})})
+					items = append(items, c13Item{Ops: append(append([]gOp{}, ops...), gOp{K: "dupadd", Name: names[len(cur)-1]})})
 				}
 			}
 		}
